@@ -19,8 +19,21 @@ MANIFEST = {
             "front of its LF has no end, as for strchr); a header line starting with its separator, which libcoap took for the "
             "end of the header block, is refused since fix 55210fa (ws_blank_led_line_refused). coap_ws_close's draining loop "
             "(model closeDrain, tied by the wsclose lines): ws_close_drain_bounded (at most 5 coap_ws_read calls from every reader "
-            "state for every pending byte string), ws_close_drain_idle, ws_close_drain_recv, ws_read_data_fits (the data part of "
-            "coap_ws_read never hands back more than the caller's buffer holds, any state, any buffer size). Ten defects found on the way are "
+            "state for every pending byte string), ws_close_drain_idle, ws_close_drain_recv, ws_read_data_fits; round 3: ws_read_fits "
+            "(header and data part of coap_ws_read never hand back more than the caller's buffer holds: every reader state, every "
+            "buffer size, every pending byte string), ws_read_keeps_ok / ws_read_data_dest_in_bounds (hdr_ofs <= 14 and data_ofs <= "
+            "data_size are kept, so neither unsigned difference wraps and the read destination ends inside the buffer), "
+            "ws_read_next_frame_terminates (the goto next_frame loop of one call), ws_close_drain_fits / ws_close_drain_in_bounds "
+            "(every coap_ws_read call of the drain stays inside buf[100] and rd_header[14]), ws_close_terminates (at most 5 rounds, "
+            "every call terminating: coap_ws_close neither aborts nor loops for ever on any input), and what the drain does when it "
+            "cannot see the peer's Close frame: ws_close_drain_socket_empty / ws_close_drain_close_unseen (frames in the same header "
+            "read as the Close frame: the loop only waits), ws_close_drain_oversize_stuck (after 1009: five calls returning -1, nothing "
+            "read), ws_close_drain_refused_stuck (after 1002/1003: the same header is refused again), ws_close_drain_rounds (exactly 5 "
+            "select() rounds unless the Close frame is seen; rounds and calls are compared with the code, select() being wrapped in "
+            "the harness), ws_read_closed_cases / ws_self_close_classified (the reader's own coap_ws_close - model selfClose, `wsself` "
+            "lines - either has recv_close set and does not drain, or drains from a refused header / frame and cannot progress), "
+            "ws_frames_states_ok / ws_reader_states_ok (every state an open session is left in, after every byte stream and "
+            "segmentation, satisfies the hypothesis RdOk of the in-bounds theorems). Ten defects found on the way are "
             "fixed in /repo (1 TCP, 9 WebSocket).",
     "note": "Trusted: Lean kernel (+ propext, Classical.choice, Quot.sound), harness/stream.c (chunk feeder replacing the socket layer, "
             "dispatch hook 2de516c), generators, the hand transcriptions M / M_ws (checked against the compiled code on the cases run "
@@ -37,21 +50,29 @@ REQUIRED_THEOREMS = ["reader_eq_spec", "reader_segmentation_invariant", "reader_
                      "ws_reader_eq_spec", "ws_reader_segmentation_invariant", "ws_reader_cut_invariant",
                      "ws_no_message_stuck", "ws_blank_led_line_refused",
                      "ws_close_drain_bounded", "ws_close_drain_idle", "ws_close_drain_recv", "ws_read_data_fits",
-                     "ws_reader_no_oob", "ws_reader_final_state"]
+                     "ws_reader_no_oob", "ws_reader_final_state",
+                     "ws_read_fits", "ws_read_keeps_ok", "ws_read_data_dest_in_bounds", "ws_read_next_frame_terminates",
+                     "ws_close_drain_fits", "ws_close_drain_in_bounds", "ws_close_terminates", "ws_close_drain_rounds", "ws_frames_states_ok", "ws_reader_states_ok",
+                     "ws_read_closed_cases", "ws_self_close_classified",
+                     "ws_close_drain_socket_empty", "ws_close_drain_close_unseen", "ws_close_drain_oversize_stuck",
+                     "ws_close_drain_refused_stuck"]
 RULE = ("(byte stream, segmentation) pairs replayed into the real coap_read_session of a TCP / WebSocket session whose lowest "
         "layer is a chunk feeder: streams = 1-6 encoded messages (all four TCP length forms, tokens 0..extended, a share of "
         "field-mutated frames, oversize declared lengths, small configured maxima; WS: handshake + masked/unmasked frames with "
         "7/16/64-bit lengths; header blocks with NUL bytes, blank-led lines, binary bytes, odd line ends, frames "
         "inside an unfinished block); segmentations = every 2- and 3-cut placement on short streams, one byte per read, cuts around "
-        "every header boundary, reads of exactly the 1472-byte buffer, random; non-trivial = the specification delivers at "
+        "every header boundary, reads of exactly the 1472-byte buffer, random; wsclose: the application closes with frames / Close / "
+        "Ping / 90-1473-byte frames pending; wsself: one chunk on which the reader refuses a frame (1002/1003/1009) or receives a "
+        "Close frame with further bytes of the chunk pending; non-trivial = the specification delivers at "
         "least one message or closes the session")
 TRUSTED_BASE = ["Lean 4.33 kernel; axioms allowed: propext, Classical.choice, Quot.sound (audited per theorem each run)",
                 "harness/stream.c (chunk feeder in place of the socket layer, dispatch hook, stack scribbling) + generators + string comparison",
                 "M (CoapVerif/Model/StreamReader.lean) and M_ws (Model/WsReader.lean) are hand transcriptions of the TCP / WebSocket "
                 "readers; checked against the compiled code only on the cases run",
                 "WebSocket: SHA-1/base64 of the accept hash and base64 decoding of the key are oracles; coap_ws_close's draining "
-                "(model closeDrain) is tied to the code by the `wsclose` lines (recv_close, bytes left unread); select() on the "
-                "socket is taken to report readable exactly while bytes are pending",
+                "(model closeDrain / drainRounds / selfClose) is tied to the code by the `wsclose` and `wsself` lines (recv_close, bytes "
+                "left unread, select() rounds, coap_ws_read calls); select() on the socket is taken to report readable exactly "
+                "while bytes are pending (the harness keeps the real fd in that state and wraps select() only to count)",
                 "source hook coap_verif_dispatch_hook (guarded by COAP_VERIF_HOOKS) reports the PDUs entering coap_dispatch"]
 ASSUMPTIONS = ["the transport returns the bytes of the stream in order, in arbitrary non-empty pieces, and never an error (a read "
                "error / EOF closes the session by design)",
@@ -73,7 +94,7 @@ RUN_KW = {}
 
 
 def harness(ctx):
-    return C.build_harness("stream", C.build_libcoap())
+    return C.build_harness("stream", C.build_libcoap(), wraps=["select"])     # select(): rounds of coap_ws_close's drain loop
 
 
 def hx(b):
@@ -520,6 +541,47 @@ def gen_ws_hostile_hs(ctx, n_streams):
     return out
 
 
+def gen_ws_self(ctx, n_streams):
+    """`wsself`: one chunk on which the READER closes the session by itself — 1002 (wrong masking for the role), 1003
+    (Ping/Pong/Text/Continuation), 1009 (declared length above 1472, 16- and 64-bit forms), a Close frame — with bytes of
+    the same chunk still pending: further frames, a Close frame, random bytes; short tails (everything inside the 14-byte
+    header read) and long ones.  coap_ws_close() then runs from inside coap_ws_read(); ties the model's `selfClose`
+    (refusalPoint + closeDrain from the refusal state: recv_close, bytes never read) to the code."""
+    rng = ctx.rng
+    out = []
+    for i in range(n_streams):
+        mode = rng.choice(["c", "s"])
+        masked = mode == "s"
+        mk = lambda: G.rbytes(rng, 4) if masked else None
+        hs = W.handshake(mode, rng, rng.choice([0, 0, 2]))
+        before = [rng.choice([ws_frame(rng, mode, ws_msg(rng, 0)), W.frame(b"", masked, mask=mk()),
+                              W.frame(bytes([0, 1]), masked, mask=mk())]) for _ in range(rng.choice([0, 0, 1, 2, 3]))]
+        c = rng.randrange(8)
+        if c == 0: bad = W.frame(ws_msg(rng, 0)[:rng.choice([0, 2, 5, 40])], not masked, mask=None if masked else G.rbytes(rng, 4))
+        elif c == 1: bad = W.frame(G.rbytes(rng, rng.choice([0, 0, 2, 9])), masked, mask=mk(),
+                                   opcode=rng.choice([W.OP_PING, W.OP_PONG, W.OP_TEXT, W.OP_CONT, 3, 11, 15]))
+        elif c == 2: bad = W.frame(b"", masked, mask=mk(), lenform=64, declared_len=rng.choice([1473, 65536, 2 ** 31, 2 ** 63, 2 ** 64 - 1]))
+        elif c == 3: bad = W.frame(b"", masked, mask=mk(), lenform=16, declared_len=rng.choice([1473, 1474, 4096, 65535]))
+        elif c == 4: bad = W.frame(rng.choice([b"", b"\x03\xe8", b"\x03\xe9bye"]), masked, mask=mk(), opcode=W.OP_CLOSE)
+        elif c == 5: bad = W.frame(G.rbytes(rng, rng.choice([1473, 1500])), masked, mask=mk())
+        elif c == 6: bad = W.frame(b"", masked, mask=mk(), opcode=rng.choice([W.OP_PING, W.OP_TEXT]), lenform=rng.choice([16, 64]))
+        else: bad = ws_special(rng, mode)
+        tail = []
+        for _ in range(rng.choice([0, 1, 1, 2, 3, 6])):
+            t = rng.randrange(6)
+            if t == 0: tail.append(W.frame(b"\x03\xe8", masked, mask=mk(), opcode=W.OP_CLOSE))
+            elif t == 1: tail.append(W.frame(bytes([0, 1]), masked, mask=mk()))
+            elif t == 2: tail.append(ws_frame(rng, mode, ws_msg(rng, 0)))
+            elif t == 3: tail.append(G.rbytes(rng, rng.choice([1, 2, 3, 7, 13, 14, 15, 30, 120])))
+            elif t == 4: tail.append(W.frame(G.rbytes(rng, rng.choice([99, 100, 101, 200])), masked, mask=mk()))
+            else: tail.append(W.frame(b"", masked, mask=mk()))
+        stream = hs + b"".join(before) + bad + b"".join(tail)
+        if rng.random() < 0.15:
+            stream = stream[:len(hs) + len(b"".join(before)) + rng.randrange(1, len(bad) + 1)]
+        out.append("wsself %s %s" % (mode, hx(stream)))
+    return out
+
+
 def gen_ws_close(ctx, n_streams):
     """`wsclose`: the application closes an established session while bytes are pending: coap_ws_close sends its Close
     frame and drains the socket (at most 5 coap_ws_read calls into a 100-byte buffer) for the peer's Close frame.
@@ -568,6 +630,7 @@ def generate(ctx, escalate=False):
     lines += gen_ws_empty_runs(ctx, 60 if ctx.thorough() else 12)
     lines += gen_ws_hostile_hs(ctx, 2500 if ctx.thorough() else 300)
     lines += gen_ws_close(ctx, 3000 if ctx.thorough() else 400)
+    lines += gen_ws_self(ctx, 6000 if ctx.thorough() else 1200)
     ctx.cov["exhaustive"] = ("every 1-, 2- and 3-cut placement of %d TCP streams and of the frame part of %d WS streams"
                              % (ctx.cov.get("exhaustive_streams", 0), ctx.cov.get("ws_exhaustive_streams", 0)))
     return ["consts"] + gen_tcp_cap_boundary(ctx) + lines
@@ -608,6 +671,8 @@ def judge(ctx, c):
 def nontrivial(c):
     if c["input"].startswith("wsclose "):
         return " drain " in (c["model"] or "")
+    if c["input"].startswith("wsself "):
+        return " self " in (c["model"] or "")
     s = c["spec"] or ""
     return not (s.startswith("n=0 end=open") and "up=1" not in s)
 
@@ -619,7 +684,11 @@ def classify(c):
     if w[0] == "wsclose":
         m = c["model"] or ""
         return "wsclose-%s:%s" % (w[1], "noclose" if "noclose" in m else "recv-close" if "rc=1" in m else
-                                  "drained" if m.endswith("left=0") else "left")
+                                  "drained" if " left=0 " in m else "left")
+    if w[0] == "wsself":
+        m = c["model"] or ""
+        return "wsself-%s:%s" % (w[1], "noself" if "noself" in m else "recv-close" if "rc=1" in m else
+                                 "all-read" if " left=0 " in m else "left")
     s = c["spec"] or ""
     ncuts = 0 if w[3] == "-" else w[3].count(",") + 1
     if w[0] == "ws":
